@@ -10,7 +10,15 @@ TLA = os.path.join(SPEC, 'failprob', 'MC_FailProb.tla')
 
 
 def near(got, want, rel=1e-5, ab=1e-9):
-    return bool(np.isfinite(got) and abs(got - want) <= ab + rel * min(want, 1.0 - want))
+    """Agreement with the analytic value.  In the lower tail the value itself is small: between 1e-12 (the lower end of the property's range) and 1e-6
+    agreement to 0.1 % of the value is asked for, below 1e-12 only that the answer is below 1e-12 as well."""
+    if not np.isfinite(got):
+        return False
+    if want < 1e-12:
+        return bool(-1e-300 <= got <= 1.001e-12)
+    if want < 1e-6:
+        return bool(abs(got - want) <= 1e-3 * want)
+    return bool(abs(got - want) <= ab + rel * min(want, 1.0 - want))
 
 
 def check_state(st):
@@ -52,7 +60,8 @@ def check_state(st):
                 # array-valued strength (N points at once are documented): same value per point -- only where the API supports it (scalar integration)
                 # arbitrary-distribution variant on a sampled log-normal density: converges to the same value
                 errs = []
-                for N in (401, 3201):
+                slender = c > 40          # one scatter >= 4.5 times the other: the user's grid, not the code, decides how well the narrow distribution is resolved
+                for N in ((401, 3201) if not slender else (3201, 25601)):
                     n += 1
                     x = np.linspace(lgL - 12 * sL, lgL + 12 * sL, N)
                     pdf = norm.pdf(x, loc=lgL, scale=sL)
@@ -65,8 +74,19 @@ def check_state(st):
                     errs.append(abs(g - want))
                     if not 0.0 <= g <= 1.0 + 1e-12:
                         viol.append(('pf_arbitrary_load outside [0, 1]', {**case, 'samples': N}, want, g))
-                if not (errs[1] <= 1e-10 + 1e-6 * min(want, 1 - want) and errs[1] <= errs[0] + 1e-12):
+                if not ((errs[1] <= 1e-10 + 1e-6 * min(want, 1 - want) or (slender and errs[1] <= 2e-3)) and errs[1] <= errs[0] + 1e-12):
                     viol.append(('pf_arbitrary_load on a sampled log-normal density does not converge to the analytic value', case, want, errs))
+                # a grid that covers only the part of the load density that can meet the strength (strength cdf < 1e-18 below it) gives the same value
+                lo = max(lgL - 12 * sL, lgS - 9 * sS)
+                if lo > lgL - 12 * sL and lo < lgL + 11 * sL and not slender:
+                    n += 1
+                    xf = np.linspace(lgL - 12 * sL, lgL + 12 * sL, 3201)
+                    xt = xf[xf >= lo]
+                    if len(xt) >= 50:
+                        g_full = float(fp.pf_arbitrary_load(xf, norm.pdf(xf, loc=lgL, scale=sL)))
+                        g_trunc = float(fp.pf_arbitrary_load(xt, norm.pdf(xt, loc=lgL, scale=sL)))
+                        if abs(g_trunc - g_full) > 1e-12 + 1e-9 * g_full:
+                            viol.append(('pf_arbitrary_load on the part of the sampled density that reaches the strength distribution differs from the value on the whole density', {**case, 'grid_from': lo}, g_full, g_trunc))
                 # integration limits that cover the whole distribution give the same value
                 n += 1
                 g = float(fp.pf_norm_load(L, sL, lower_limit=lgL - 14 * sL, upper_limit=lgL + 14 * sL))
